@@ -74,14 +74,152 @@ def _choose_ctx(rt, i):
         n *= 2
 
 
+_OPEN = {'(': ')', '[': ']', '{': '}'}
+_CLOSE = {')', ']', '}'}
+
+
+def _balanced(toks):
+    st = []
+    for t in toks:
+        if t in _OPEN:
+            st.append(_OPEN[t])
+        elif t in _CLOSE:
+            if not st or st.pop() != t:
+                return False
+    return not st
+
+
+def _slide(opcodes, rt, at):
+    """difflib may match a repository bracket with a bracket inside an inserted contract, which splits one
+    annotation over two insertions.  Where an insertion is not bracket-balanced, re-match the neighbouring
+    repository token with an equal token inside the insertion so that the pieces become balanced."""
+    ops = [list(o) for o in opcodes]
+    k = 0
+    guard = 0
+    while k < len(ops) and guard < 5000:
+        guard += 1
+        o = ops[k]
+        if o[0] != 'insert' or _balanced(at[o[3]:o[4]]):
+            k += 1
+            continue
+        tag, i1, i2, j1, j2 = o
+        cur = _imbalance(at[j1:j2])
+        prev = ops[k - 1] if k > 0 else None
+        nxt = ops[k + 1] if k + 1 < len(ops) else None
+        best = None
+        if prev and prev[0] == 'equal' and prev[4] > prev[3]:
+            r = at[j1 - 1]
+            for q in range(j2 - 1, j1 - 1, -1):
+                if at[q] != r:
+                    continue
+                cost = _imbalance(at[j1 - 1:q]) + _imbalance(at[q + 1:j2])
+                if cost < cur and (best is None or cost < best[0]):
+                    best = (cost, 'prev', q)
+        if nxt and nxt[0] == 'equal' and nxt[4] > nxt[3]:
+            r = at[j2]
+            for q in range(j1, j2):
+                if at[q] != r:
+                    continue
+                cost = _imbalance(at[j1:q]) + _imbalance(at[q + 1:j2 + 1])
+                if cost < cur and (best is None or cost < best[0]):
+                    best = (cost, 'next', q)
+        if best is None:
+            k += 1
+            continue
+        _, side, q = best
+        if side == 'prev':
+            # repository token i1-1 now matches A[q]; A[j1-1:q] is inserted before it, A[q+1:j2] after it
+            prev[2] -= 1
+            prev[4] -= 1
+            new = [['insert', i1 - 1, i1 - 1, j1 - 1, q], ['equal', i1 - 1, i1, q, q + 1], ['insert', i1, i1, q + 1, j2]]
+            ops[k:k + 1] = new
+        else:
+            nxt[1] += 1
+            nxt[3] += 1
+            new = [['insert', i1, i1, j1, q], ['equal', i1, i1 + 1, q, q + 1], ['insert', i1 + 1, i1 + 1, q + 1, j2 + 1]]
+            ops[k:k + 1] = new
+        ops = [x for x in ops if not (x[0] == 'equal' and x[1] == x[2]) and not (x[0] == 'insert' and x[3] == x[4])]
+        # merge adjacent inserts / equals
+        m = []
+        for x in ops:
+            if m and m[-1][0] == x[0] and m[-1][2] == x[1] and m[-1][4] == x[3]:
+                m[-1][2] = x[2]
+                m[-1][4] = x[4]
+            else:
+                m.append(x)
+        ops = m
+        k = max(0, k - 2)
+    return [tuple(o) for o in ops]
+
+
+def _imbalance(toks):
+    st = []
+    bad = 0
+    for t in toks:
+        if t in _OPEN:
+            st.append(_OPEN[t])
+        elif t in _CLOSE:
+            if st and st[-1] == t:
+                st.pop()
+            else:
+                bad += 1
+    return bad + len(st)
+
+
+def _better(cand, cur):
+    return _imbalance(cand) < _imbalance(cur)
+
+
+def _line_groups(T, node):
+    """token index ranges (relative to node.lo) of the source lines of a leaf"""
+    groups = []
+    cur_line = None
+    for k in range(node.lo, node.hi):
+        ln = T.text.count('\n', 0, T.toks[k][2]) if cur_line is None else cur_line + T.text.count('\n', T.toks[k - 1][2], T.toks[k][2])
+        if cur_line is None or ln != cur_line:
+            groups.append([k - node.lo, k - node.lo + 1])
+        else:
+            groups[-1][1] = k - node.lo + 1
+        cur_line = ln
+    return groups
+
+
+def _two_level_opcodes(R, rn, A, an, rt, at):
+    """align whole source lines first (repository lines survive verbatim in the annotated text), then diff tokens
+    inside the changed hunks only; keeps repository brackets from being matched with brackets of a contract"""
+    rg, ag = _line_groups(R, rn), _line_groups(A, an)
+    rl = [tuple(rt[a:b]) for a, b in rg]
+    al = [tuple(at[a:b]) for a, b in ag]
+    out = []
+    sm = difflib.SequenceMatcher(None, rl, al, autojunk=False)
+    for tag, i1, i2, j1, j2 in sm.get_opcodes():
+        ri1 = rg[i1][0] if i1 < len(rg) else len(rt)
+        ri2 = rg[i2 - 1][1] if i2 > i1 else ri1
+        aj1 = ag[j1][0] if j1 < len(ag) else len(at)
+        aj2 = ag[j2 - 1][1] if j2 > j1 else aj1
+        if tag == 'equal':
+            out.append(('equal', ri1, ri2, aj1, aj2))
+            continue
+        sub = difflib.SequenceMatcher(None, rt[ri1:ri2], at[aj1:aj2], autojunk=False)
+        for t2, a1, a2, b1, b2 in sub.get_opcodes():
+            out.append((t2, ri1 + a1, ri1 + a2, aj1 + b1, aj1 + b2))
+    # merge neighbours of the same kind
+    merged = []
+    for o in out:
+        if merged and merged[-1][0] == o[0] and merged[-1][2] == o[1] and merged[-1][4] == o[3]:
+            merged[-1] = (o[0], merged[-1][1], o[2], merged[-1][3], o[4])
+        else:
+            merged.append(o)
+    return _slide(merged, rt, at)
+
+
 def _leaf_ops(R, rn, A, an, path, allow_subst, errs):
     rt = texts(R.toks[rn.lo:rn.hi])
     at = texts(A.toks[an.lo:an.hi])
     if rt == at:
         return []
-    sm = difflib.SequenceMatcher(None, rt, at, autojunk=False)
     ops = []
-    for tag, i1, i2, j1, j2 in sm.get_opcodes():
+    for tag, i1, i2, j1, j2 in _two_level_opcodes(R, rn, A, an, rt, at):
         if tag == 'equal':
             continue
         # inserted text: from the end of the previous A token to the end of the last new one
@@ -161,8 +299,27 @@ def compile_overlay(raw, annotated, allow_subst=False):
     return ops
 
 
-def apply_overlay(raw, ops):
-    """returns (text, inserted) where inserted = [(start, end, op_index)] offsets in text"""
+def _split_anchor(rt, before, after):
+    """positions b1 < b2 with the whole `before` window ending at b1 and the whole `after` window starting at b2.
+    Returns (position, sure): block-start annotations stay after the `{`, block-end ones before the `}`;
+    otherwise the annotation stays with the preceding text and the placement is only a guess."""
+    nb, na = len(before), len(after)
+    b1 = [b for b in range(nb, len(rt) + 1) if rt[b - nb:b] == before]
+    b2 = [b for b in range(0, len(rt) - na + 1) if rt[b:b + na] == after]
+    if len(b1) != 1 or len(b2) != 1 or not (b1[0] < b2[0]):
+        return None
+    if before and before[-1] == '{':
+        return b1[0], True
+    if after and after[0] == '}':
+        return b2[0], True
+    return b1[0], False
+
+
+def apply_overlay(raw, ops, guessed=None):
+    """returns (text, inserted) where inserted = [(start, end, op_index)] offsets in text; `guessed` collects the
+    item paths in which an annotation had to be placed by a guess"""
+    if guessed is None:
+        guessed = []
     R = Tree(raw)
     ins = []        # (offset, order, text, op_index)
     dels = []       # (start, end) ranges of raw replaced by subst ops
@@ -189,6 +346,15 @@ def apply_overlay(raw, ops):
         rt = texts(R.toks[node.lo:node.hi])
         b, best, second = _best(rt, op['before'], op['after'])
         full = 2 * (len(op['before']) + len(op['after']))
+        if best >= full * 0.45 and second >= best - 1:
+            # typical cause: new tokens were inserted exactly at the anchor, so the text before it and the text
+            # after it both still match, at two different places
+            alt = _split_anchor(rt, op['before'], op['after'])
+            if alt is not None:
+                b, sure = alt
+                second = best - 2
+                if not sure:
+                    guessed.append('/'.join(op['path']))
         if best < full * 0.45 or second >= best - 1:
             raise AnchorError('lost anchor in %s (score %d/%d, runner-up %d): context %r | %r'
                               % ('/'.join(op['path']), best, full, second,
